@@ -106,7 +106,9 @@ Inductive http_res :=
 Definition get_i32 (k : list Z) (d : list (list Z * bval)) : option Z :=
   match dict_get k d with
   | None => Some 0
-  | Some (BInt z) => if in_i32 z then Some z else None
+  | Some (BInt z) => (* zeebo stores an int64 into an int32 field by truncation; beyond int64 is a decode error *)
+      if (-9223372036854775808 <=? z) && (z <=? 9223372036854775807)
+      then Some ((z + 2147483648) mod 4294967296 - 2147483648) else None
   | Some _ => None
   end.
 
